@@ -606,6 +606,7 @@ def opRecords (j : Json) : Except String Json := do
     if !(Records.allRecs.any fun r => r.name == nm) then throw s!"unknown record {nm}"
   let reg ← getBool j "registerStocks"
   let T ← getNat j "T"
+  let dt ← getNat j "dt"
   let endsJ ← fld j "ends"
   let endsArr ← match endsJ.getArr? with
     | .ok a => pure a
@@ -616,7 +617,7 @@ def opRecords (j : Json) : Except String Json := do
   let cfg : Records.Cfg := { saved := fun r => saved.contains r.name, registerStocks := reg }
   -- the value recorded at step t is t itself: enough to read off which rows were written
   let steps : List ((Records.Rec → Nat) × Records.StepEnd) := ends.zipIdx.map fun (e, t) => ((fun _ => t), e)
-  let (log, done) := Records.runLog cfg steps 0 Records.emptyLog
+  let (log, done) := Records.runLog cfg dt steps 0 Records.emptyLog
   let written := Records.allRecs.map fun r =>
     (r.name, Json.arr (((List.range T).filter (fun t => (log r t).isSome)).map (fun (t : Nat) => Json.num (t : Nat))).toArray)
   pure <| Json.mkObj [("written", Json.mkObj written), ("completed", (done : Json))]
